@@ -279,6 +279,41 @@ def mesh_task(item):
     return errs, nstates, nleaf
 
 
+def grid_history_task(item):
+    """Histories of mesh constructions on ONE curve object: every ordered pair of space grids (incl. different grids of the SAME
+    length) x two time grids; whatever the curve object remembers from the first construction must not leak into the second."""
+    cname = item
+    import src.parametrization as P_
+    errs = []
+    n = 0
+    g0 = meshmc.curve(cname)
+    ps = [float(x) for x in g0.pw_start]
+    grids = dict(space_grids(g0))
+    grids['second-in-three'] = sorted(set(ps + [ps[-2] + (ps[-1] - ps[-2]) / 3, ps[-2] + 2 * (ps[-1] - ps[-2]) / 3]))
+    grids['first-halved-last-halved'] = sorted(set(ps + [(ps[0] + ps[1]) / 2, (ps[-2] + ps[-1]) / 2]))
+    grids['first-in-three-b'] = sorted(set(ps + [ps[0] + (ps[1] - ps[0]) / 4, ps[0] + (ps[1] - ps[0]) / 2]))
+    names = sorted(grids)
+    for a in names:
+        for b in names:
+            if a == b:
+                continue
+            g = getattr(P_, cname)()  # one fresh curve object per history
+            for tg in ([0.0, 1.0], [0.0, 0.5, 2.0]):
+                for nm in (a, b):
+                    sg = grids[nm]
+                    try:
+                        m = MeshParametrized(g, initial_space_mesh=None if sg is None else list(sg), initial_time_mesh=list(tg))
+                        m.uniform_refine()
+                    except Exception as ex:
+                        errs.append(('grid-history-raised', {'curve': cname, 'first': a, 'second': b, 'exc': repr(ex)}))
+                        continue
+                    n += 1
+                    for t, d in check_mesh(m, g):
+                        if len(errs) < 4:
+                            errs.append(('grid-history:' + t, {'curve': cname, 'first_grid': a, 'second_grid': b, 'grid': nm, 'time_grid': tg, 'detail': d}))
+    return errs, n
+
+
 def run(ctx):
     nviol_before = ctx.n_viol
     ncases = 0
@@ -331,6 +366,15 @@ def run(ctx):
                           {'part': 'mesh', 'curve': it[0], 'time_grid': it[2], 'space_grid_name': it[3], 'space_grid': it[4],
                            'history': d.get('history') if isinstance(d, dict) else None})
     per['mesh_configs'] = len(items)
+    resH = pmap(grid_history_task, list(CURVES), ctx.jobs, chunksize=1)
+    nH = 0
+    for cname, (errs, nn) in zip(CURVES, resH):
+        nH += nn
+        for tag, d in errs[:3]:
+            ctx.violation({'part': 'mesh-history', 'curve': cname, 'tag': tag}, 'construction history on one curve object: {} {}'.format(tag, d),
+                          {'part': 'mesh-history', 'curve': cname})
+    per['grid_histories_meshes_built'] = nH
+    nstates += nH
     cov = {
         'evaluations': ncases + nleaf, 'distinct_nontrivial': ncases + nstates,
         'rule': 'curve clauses: one evaluation per (curve, alphabet point / pair of alphabet points in one piece / break point); '
@@ -352,6 +396,8 @@ def replay(ctx, data):
     elif data['part'] == 'polygon':
         status, errs, n = polygon_task([tuple(v) for v in data['vertices']])
         print('constructor:', status)
+    elif data['part'] == 'mesh-history':
+        errs, n = grid_history_task(data['curve'])
     else:
         g = meshmc.curve(data['curve'])
         cfg = ('param', data['curve'], None if data['space_grid'] is None else tuple(data['space_grid']),
